@@ -207,6 +207,8 @@ func checkC18(r *core.Run) {
 		}
 		r.Check(okc, "C18.scan", key, w.Pos(sfn.Decl.Pos()), "scan type and JDBC code agree", "the row scanner reads "+s+" columns into "+kind+" but the image is labelled "+code+": scanning fails or the undo log restores a value of the wrong kind")
 	}
+	c18UpsertAfter(r)
+	c18ColumnDefault(r)
 	r.Floor("C18.derive", 10)
 	r.Floor("C18.markers", 1)
 	r.Floor("C18.scan", 28)
@@ -702,5 +704,120 @@ func c18Sticky(r *core.Run, live []*types.Named, rule string) {
 			}
 			return true
 		})
+	}
+}
+
+// c18UpsertAfter (C18.derive): INSERT ... ON DUPLICATE KEY UPDATE writes rows that existed (found by a unique key of
+// the statement's values) and rows that did not. Its after image — from which the lock keys of the statement are
+// built — is read back with the query derived from the statement's own key values (the before-image query extended
+// by the keys found), on every path: a query narrowed to the rows of the before image leaves the rows the
+// statement inserted out of the image and without a lock key.
+func c18UpsertAfter(r *core.Run) {
+	w := r.W
+	ex := w.NamedType("pkg/datasource/sql/exec/at", "insertOnUpdateExecutor")
+	after := methodInfo(w, ex, "afterImage")
+	if r.Anchor("C18.derive", after, "insertOnUpdateExecutor.afterImage") == nil {
+		return
+	}
+	r.Fn(after)
+	info := after.Pkg.TypesInfo
+	n := 0
+	ast.Inspect(after.Decl.Body, func(nd ast.Node) bool {
+		c, ok := nd.(*ast.CallExpr)
+		if !ok {
+			return true
+		}
+		callee := core.Callee(info, c)
+		if callee == nil || !(strings.Contains(callee.Name(), "Query") && len(c.Args) >= 2) {
+			return true
+		}
+		// the statement text argument: the first string-typed argument
+		for _, a := range c.Args {
+			t := info.TypeOf(a)
+			if t == nil {
+				continue
+			}
+			if b, ok := t.Underlying().(*types.Basic); !ok || b.Kind() != types.String {
+				continue
+			}
+			n++
+			r.Sites++
+			o := origin(after, a, 4)
+			// one origin on every path: the result of a builder method of this executor (whatever its name)
+			okc := strings.HasPrefix(o, "call:pkg/datasource/sql/exec/at.(insertOnUpdateExecutor).") && !strings.Contains(o, "phi(")
+			r.Check(okc, "C18.derive", core.ShortKey(after.Obj)+" reads the after image with the query built from the statement's key values", w.Pos(c.Pos()), o,
+				"the after-image query of the upsert is "+o+": on some path it is not the query derived from the statement's own key values, so rows the statement inserted (no before image) are missing from the after image and get no lock key")
+			break
+		}
+		return true
+	})
+	if n == 0 {
+		r.Bad("C18.derive", core.ShortKey(after.Obj)+" reads the after image with the query built from the statement's key values", w.Pos(after.Decl.Pos()), "no image query found")
+	}
+}
+
+// c18ColumnDefault (C18.scan): the executors tell "column left out of the INSERT takes its default" from "column left
+// out is NULL" by ColumnMeta.ColumnDef being nil. The table-meta loader therefore sets ColumnDef from the scanned
+// COLUMN_DEFAULT whenever that is not NULL — an empty string is a default (DEFAULT ''): the assignment may depend on
+// the NULL-ness of the scanned value (x != nil, x.Valid) but not on its content.
+func c18ColumnDefault(r *core.Run) {
+	w := r.W
+	n := 0
+	for _, f := range w.SortedFuncs() {
+		if !strings.HasSuffix(f.Pkg.PkgPath, "/pkg/datasource/sql/datasource/mysql") || w.IsTestFile(f.Decl.Pos()) || f.Decl.Body == nil {
+			continue
+		}
+		info := f.Pkg.TypesInfo
+		ast.Inspect(f.Decl.Body, func(nd ast.Node) bool {
+			as, ok := nd.(*ast.AssignStmt)
+			if !ok {
+				return true
+			}
+			for i, l := range as.Lhs {
+				sel, ok := ast.Unparen(l).(*ast.SelectorExpr)
+				if !ok || sel.Sel.Name != "ColumnDef" || i >= len(as.Rhs) {
+					continue
+				}
+				if v, ok := info.Uses[sel.Sel].(*types.Var); !ok || !v.IsField() {
+					continue
+				}
+				n++
+				r.Sites++
+				r.Fn(f)
+				// the scanned variable the value comes from
+				var src types.Object
+				ast.Inspect(as.Rhs[i], func(m ast.Node) bool {
+					if id, ok := m.(*ast.Ident); ok && src == nil {
+						if v, ok := info.Uses[id].(*types.Var); ok && !v.IsField() {
+							src = v
+						}
+					}
+					return true
+				})
+				bad := ""
+				for _, e := range enclosing(f.Decl.Body, as) {
+					is, ok := e.(*ast.IfStmt)
+					if !ok || src == nil || !mentions(info, is.Cond, src) {
+						continue
+					}
+					okCond := false
+					switch c := ast.Unparen(is.Cond).(type) {
+					case *ast.SelectorExpr:
+						okCond = c.Sel.Name == "Valid"
+					case *ast.BinaryExpr:
+						okCond = (c.Op == token.NEQ || c.Op == token.EQL) && (isNilIdent(info, c.Y) || isNilIdent(info, c.X))
+					}
+					if !okCond {
+						bad = core.ExprString(is.Cond)
+					}
+				}
+				r.Check(bad == "", "C18.scan", core.ShortKey(f.Obj)+" records a column default whenever COLUMN_DEFAULT is not NULL", w.Pos(as.Pos()), "set unconditionally or under a NULL test only",
+					"ColumnDef is set only when '"+bad+"' holds: a column declared with an empty-string default is recorded as having none, so an INSERT ... ON DUPLICATE KEY UPDATE that leaves it out is taken to write NULL into its unique index and the index is dropped from the image query — the row the statement updates through that index is missing from both images")
+			}
+			return true
+		})
+	}
+	if n == 0 {
+		r.Bad("C18.scan", "table-meta loader records column defaults", "", "no assignment to ColumnMeta.ColumnDef found in the MySQL table-meta loader")
 	}
 }
